@@ -170,11 +170,14 @@ theorem repeat_zero (f m : Nat) (s : State) (p : Obj) : repeatLoop (f + 1) m s 0
   simp [repeatLoop, okS]
 
 /-- one turn of `for`: termination test on the control value, the control value is pushed
-for the body, the increment wraps like Go's `int` -/
+for the body; the loop also ends when the next control value would leave the integer range
+(repaired defect: it used to wrap around and run until the budget was used up) -/
 theorem for_step (f m : Nat) (s : State) (v inc lim : Int) (p : Obj) :
     forLoop (f + 1) m s v inc lim p =
       (if (inc > 0 ∧ v > lim) ∨ (inc < 0 ∧ v < lim) then (s, .ok)
-       else afterTurn (execOne f m (pushS s (.int v)) p true) (fun s1 => forLoop f m s1 (wrap64 (v + inc)) inc lim p)) := by
+       else afterTurn (execOne f m (pushS s (.int v)) p true)
+         (fun s1 => if (inc > 0 ∧ v > maxInt64 - inc) ∨ (inc < 0 ∧ v < minInt64 - inc) then (s1, .ok)
+                    else forLoop f m s1 (wrap64 (v + inc)) inc lim p)) := by
   simp only [forLoop, afterTurn]
   split
   · simp [okS]
@@ -182,7 +185,8 @@ theorem for_step (f m : Nat) (s : State) (v inc lim : Int) (p : Obj) :
     obtain ⟨s1, r1⟩ := q
     cases r1 with
     | err e => cases e <;> simp [okS]
-    | _ => simp [okS]
+    | ok => simp [okS]
+    | fuel => simp [okS]
 
 /-- `loop` repeats until the body exits -/
 theorem loop_step (f m : Nat) (s : State) (p : Obj) :
